@@ -4,11 +4,11 @@ import PyramidModel.Gen.C19
 import PyramidModel.Lemmas.HttpExcSpec
 /-! Driver for C19: one JSON case per line.
 in : {"cls": "HTTPNotFound" | {"code":n,"title":s,"explanation":s,"body":s,"html":s,"plain":s,"custom":b,"empty":b},
-      "detail": null|s, "comment": null|s, "explanation": null|s, "body_template": null|s, "has_body": b,
+      "detail": null|s, "comment": null|s, "explanation": null|s, "body_template": null|s, "has_body": b, "status": null|s,
       "headers": [[k,v],…], "environ": [[k,v],…], "q": {"text/html":n,"application/json":n,"text/plain":n}}
      (q in thousandths; 0/absent = not acceptable; strings are Python str without lone surrogates)
 out: {"r":"untouched"} | {"r":"err","err":"key","name":s} | {"r":"err","err":"invalid"} |
-     {"r":"ok","form":"html|json|plain","ctype":s,"body":s,
+     {"r":"ok","form":"html|json|plain","ctype":s,"ctype_header":s,"body":s,
       "spec":{"form":…  (argmax-q spec), "body":… (piece-wise rendering, flattened), "user_clean":b,
               "json":null|[[k,v],…] (the Lean JSON reader applied to the body)}}
 ops: {"op":"escape","text":s} → {"escaped":s,"unescaped":s,"entities_ok":b}
@@ -116,15 +116,17 @@ def runCase (j : Json) : Except String Json := do
       | .error _ => 0
     let e0 := cls.toExc detail comment headers
     let e1 : Exc := { e0 with hasBody := hasBody, explanation := expl.getD e0.explanation }
-    let e : Exc := match bt with
+    let st ← optText j "status"
+    let e2 : Exc := match bt with
       | some t => { e1 with bodyTmpl := t, custom := true }
       | none => e1
+    let e : Exc := { e2 with status := st.getD e2.status }
     match prepare offeredForms e environ q with
     | .error err => return errJson err
     | .ok none => return Json.mkObj [("r", "untouched")]
     | .ok (some r) =>
       let specForm := bestForm q
-      let specBody : Json := match specRender specForm e environ with
+      let specBody : Json := match specRender specForm (e.withContentType specForm) environ with
         | .ok ps => Json.mkObj [("body", str (flattenPieces ps)), ("user_clean", toJson (userPiecesClean specForm ps))]
         | .error _ => Json.null
       let js : Json := match r.form with
@@ -132,7 +134,8 @@ def runCase (j : Json) : Except String Json := do
           | some kvs => Json.arr (kvs.map fun kv => Json.arr #[Json.str (str kv.1), Json.str (str kv.2)]).toArray
           | none => Json.null
         | _ => Json.null
-      return Json.mkObj [("r", "ok"), ("form", formName r.form), ("ctype", str r.contentType), ("body", str r.body),
+      return Json.mkObj [("r", "ok"), ("form", formName r.form), ("ctype", str r.contentType), ("ctype_header", str r.contentTypeHeader),
+                         ("body", str r.body),
                          ("spec", Json.mkObj [("form", formName specForm), ("render", specBody), ("json", js)])]
 
 /-- the reply on one ASCII-only line (Python's `splitlines` also splits at U+0085, U+2028, …) -/
